@@ -8,6 +8,50 @@ CHECKS = {
    text="Generated-input search over geometry specs (topology classes incl. non-manifold / degenerate / duplicated / mirrored faces, seams, isolated points, 1..5 attributes of every data type and 1..8 components, identity and explicit maps, arbitrary unique ids) crossed with option specs (both encoder APIs, method, Edgebreaker sub-method, speeds 0..10, quantization 1..26 bits auto or explicit, forced prediction schemes, built-in compression, split-on-seams, compressed connectivity). Oracle: encode ok => decode ok; attribute set equal by unique id; sequential methods: point-by-point and face-by-face equality; kd-tree: point multiset; Edgebreaker: T_in minus degenerate <= T_dec <= T_in as multisets of oriented triangles with per-corner value keys; lossy values must be bit-equal to the harness's own float32 reference quantizer. ASan+UBSan on. Exploration: no claim beyond the generated cases.",
    note="Trusts rapidcheck, the sanitizer runtimes and OctahedronToolBox for the expected octahedral value (its accuracy is C07's business). Open known findings are excluded by construction and counted; cost caps (26 quantization bits, 2^21 integer magnitudes at quick tier) are listed in the evidence.",
    design="3/C01"),
+ "C02": dict(engine="enumerator + libFuzzer", category="fault_enumeration", technique="fault enumeration (truncations and single-site corruptions of valid streams) + coverage-guided fuzzing (libFuzzer) with ASan/UBSan and an in-target oracle (Status returned, no escaping exception, input bytes untouched, watchdog)",
+   text="Seeds: the 25 legacy testdata streams (bitstream 1.1..2.3) plus ~260 small streams regenerated from the geometry generator with the current encoder, one per encoder code-path class. Every truncation and, at every offset, the byte / 32-bit / varint patterns, count rewrites, header and version rewrites, splices and multi-site corruptions are decoded through all entry points (DecodeMeshFromBuffer, DecodePointCloudFromBuffer, both DecodeBufferToGeometry overloads, KeyframeAnimationDecoder, GetEncodedGeometryType) with rotating skip-transform masks; then 16 libFuzzer workers (12 seeded, 4 from an empty corpus). Oracle inside the target: sanitizers fatal, the call returns a Status, no exception other than a bad_alloc justified by declared counts, memcmp of the input copy, per-input watchdog / libFuzzer timeout re-run in isolation.",
+   note="Absence is not shown: complete only for the listed single-site patterns on these seeds (dense up to a per-seed bound for long or slow seeds, sampled beyond). Entropy-coded semantic tampering is reached only through fuzzing in this revision. DRACO_DCHECKs are compiled out as in release builds.",
+   design="3/C02"),
+ "C03": dict(engine="enumerator + libFuzzer", category="fault_enumeration", technique="same generated corruptions as C02; oracle on every decode that returns ok: structural validity predicate + reading the geometry through the public accessors under ASan",
+   text="Whenever any decode call on a valid or corrupted stream returns ok: every face index < num_points; per attribute >= 1 component, valid data type, stride == components * type size, storage >= size * stride, explicit map of num_points entries or identity map with size >= num_points, every mapped index < size; then GetMappedValue / ConvertValue for every point, CornerToPointId for every corner, CreateCornerTableFromPositionAttribute, transform-data parsing, bounding box and metadata are exercised under ASan so that a gap in the predicate still surfaces.",
+   note="Same seeds, patterns and limits as C02. Hundreds of thousands of corrupted inputs decode ok per run (counted as non-trivial).",
+   design="3/C03"),
+ "C05": dict(engine="frozen corpus replay", technique="regression oracle over a frozen corpus: ordered digest of every decoded stream against committed goldens, version-gate rewrites, independent comparison of legacy streams with their source OBJ",
+   text="25 legacy streams shipped in testdata (writers 0.9.1 .. 2.3) and 1238 streams frozen from this tree's encoder (one or two per encoder code-path class over methods, speeds, prediction schemes, attribute layouts) are decoded through two entry points; the ordered digest (attribute descriptors, points, faces, values, metadata, in decoded order) must equal corpus/golden.txt. Each header is rewritten to 10 unsupported versions that must be refused with UNKNOWN_VERSION. The legacy test_nm.obj streams are also compared, as quantized-integer triangle multisets, with testdata/test_nm.obj quantized by the declared parameters.",
+   note="Decides the present tree against frozen bytes; the technique cannot quantify over future histories. The goldens of the frozen part are what the freezing revision decoded (after the recorded fixes). Append-only corpus.",
+   design="3/C05"),
+ "C06": dict(engine="rapidcheck + process runs", technique="stateful property-based testing (rapidcheck): generated call histories on long-lived objects compared with fresh objects; metamorphic trailing-bytes relation; differential runs across processes / ASLR / allocator fills",
+   text="Histories of 4..18 operations (configure, encode with and without clearing the buffer, Reset, sticky decoder options, decodes of earlier streams, failing encodes) over a pool of geometries on one Encoder, one ExpertEncoder per geometry, one Decoder and two EncoderBuffers: every output must equal byte-for-byte (ordered digest for decodes) the same call on fresh objects; every stream is also decoded with 1..64 trailing bytes (same geometry, exactly the stream consumed). A fixed-seed list of cases is run in 6 processes (default twice, ASLR off, MALLOC_PERTURB_ 85/170/255; thorough: valgrind memcheck) whose digest lists must be identical.",
+   note="Uninitialised bytes are attacked through allocator perturbation and valgrind only (MSan is unusable in this image).",
+   design="3/C06"),
+ "C07": dict(engine="rapidcheck", technique="property-based testing (rapidcheck): angle / unit-length / range oracle on generated normals, at transform level (q 2..30) and through the full pipeline",
+   text="Vectors: uniform directions, 1e-7..1e-2 neighbourhoods of the axes, octahedron edges, face centres and the hemisphere boundary, lengths 1e-5..1e30, degenerate class. (a) AttributeOctahedronTransform::TransformAttribute -> InverseTransformAttribute for q = 2..30; (b) meshes / point clouds from the shared generator with a quantized NORMAL attribute, q = 2..22, sequential and Edgebreaker, difference and geometric-normal prediction, correspondence through a tag attribute. Oracle: finite, |len-1| <= 1e-6, angle (atan2 of cross and dot in double) <= 3*(2/(2^q-2)) + 2e-6, octahedral integers inside the q-bit square and canonical, equal inputs give equal outputs; for the degenerate class (abs-sum <= 1e-6, the encoder's documented threshold) only finite and unit-or-zero.",
+   note="Pipeline quantization above 22 (24) bits is not generated: the symbol coder's cost grows with 2^q; the transform-level part covers 2..30.",
+   design="3/C07"),
+ "C11": dict(engine="rapidcheck", technique="property-based testing (rapidcheck): generated metadata trees, encode->decode compared with an in-harness model of the container",
+   text="Trees of depth 0..8 with 0..12 (rarely 300) entries and 0..4 sub-metadata per node, names of 0..255 arbitrary bytes (classified: 256..400), values of 0..64 KiB through every typed setter, duplicate names, names shared by an entry and a sub-metadata, 0..4 attribute metadata keyed by existing and non-existing unique ids (both attachment APIs), on a mesh and a point cloud under all four methods. Oracle: encode ok => decode ok and the decoded tree equals the model (names, byte-exact values, nesting, attribute metadata order and ids); a name over 255 bytes anywhere must make the encoder fail.",
+   note="The carrying geometry is a fixed 6-point mesh / cloud.",
+   design="3/C11"),
+ "C14": dict(engine="rapidcheck", technique="property-based testing (rapidcheck): model-based oracle (multiset / sequence of triangles with per-corner value bytes) for builder, de-duplication, clean-up and strip generation",
+   text="Geometry specs from the shared generator (all attribute types, repeated values, -0.0 / NaN patterns, seams, degenerate / duplicate / non-manifold faces, isolated points) drive TriangleSoupMeshBuilder (incl. per-face attributes), PointCloudBuilder (dedup on/off), DeduplicateAttributeValues / DeduplicatePointIds, MeshCleanup with each of the 8 option subsets and MeshStripifier in both output modes. Oracles: per-corner value bytes of every face unchanged; after dedup no two bit-identical values and no two points with equal value indices, second pass changes nothing; clean-up output is the input minus position-degenerate faces / faces with an earlier twin of equal position indices, with the post-conditions of each option; decoded strips (alternating winding, restart index, global parity with stitching) give exactly the triangle multiset by point ids.",
+   note="Clean-up is checked as an order-preserving sub-sequence (the tool keeps face order and first occurrences). Strip output through std::back_inserter.",
+   design="3/C14"),
+ "C15": dict(engine="rapidcheck + command-line runs", technique="property-based testing (rapidcheck): write/read round trips for PLY, STL, OBJ in process and through the draco_encoder / draco_decoder tools",
+   text="Geometries restricted to what the formats carry (float32 xyz positions, float32 normals, 2-component tex coords, uint8 colours; magnitudes 1e-6..1e6, +-0, repeated values; all topologies of the shared generator). PLY: per-corner positions / normals / colours and faces bit-exact; STL: triangle multiset of position bits; OBJ: per-corner values within 0.5e-6 + 2^-23|x|, value entries shared exactly when they were shared, merged only when their 6-decimal texts are equal; clouds compared as first-occurrence sets of distinct printed points. Command line: obj/ply -> draco_encoder (-qp 0 -qt 0 -qn 0 -qg 0 -cl 0..10) -> draco_decoder -> obj/ply compared as triangle / point multisets, exact after one simulated text pass (OBJ) or bit-exact (PLY).",
+   note="The tools are the repository's tools built -O2 (no sanitizer) from the working tree.",
+   design="3/C15"),
+ "C18": dict(engine="enumerator + libFuzzer", category="fault_enumeration", technique="same corruptions as C02 with emphasis on count/size fields; allocation oracle: replaced operator new/delete measure every request and the live peak against K0 + K*(input length + declared elements)",
+   text="Global operator new / delete are replaced in the harness (malloc underneath, so ASan still guards the blocks). Between the enter/leave marks of a decode call every request and the live peak must stay <= 48 MiB + 256 B * (input length + (declared points + 3 * declared faces) * (4 + declared components) + declared symbols), where the declared counts come from DRACO_VERIF_DECLARED hooks at the places the decoders read them. Requests above the physical cap (256 MiB single / 1 GiB live) that are inside the bound throw bad_alloc and are counted as tolerated. Inputs: every count / size field of every seed rewritten as u32 and varint to {+1, x2, 2^16, 2^24, 2^31-1, 2^32-1}, all other C02 patterns (thorough), libFuzzer.",
+   note="K0 covers the fixed 2^20-entry rANS tables of the concurrently live symbol decoders; the measured maximum (peak-K0)/units over successful decodes is written into the evidence each run.",
+   design="3/C18"),
+ "C19": dict(engine="rapidcheck + ThreadSanitizer", technique="property-based testing (rapidcheck) of concurrent job lists under ThreadSanitizer and ASan; differential oracle against the same jobs run alone",
+   text="Rounds of 2/4/8/16 threads released together, each running 3..6 generated jobs (encode+decode, decode with skipped transforms, OBJ and PLY buffer round trips) on its own objects. ThreadSanitizer build: any report is a violation (happens-before analysis, independent of the interleaving that occurred); ASan build: any report; both: every job's output bytes and ordered digest equal the job run alone beforehand.",
+   note="Schedules are explored, not enumerated; a correctly locked global that leaks state is visible only through the result comparison.",
+   design="3/C19"),
+ "C20": dict(engine="rapidcheck", technique="property-based testing (rapidcheck): generated keyframe animations, encode->decode compared frame by frame",
+   text="1..1500 (thorough 10^4) frames, sorted / unsorted / duplicate / negative timestamps, 0..8 tracks of 1..16 components, float32 or int8..uint32 data, SetTimestamps before / between / after AddKeyframes, per-track quantization, speeds 0..10, forced prediction. Oracle: same frame count, timestamps bit-exact in order, every track retrievable under the id AddKeyframes returned with the same descriptor, unquantized tracks bit-exact per frame, quantized tracks within the half-step bound of C04.",
+   note="Quantization above 22 (24) bits and 32-bit integers above 2^21 are not generated (cost of the symbol coder).",
+   design="3/C20"),
  "C04": dict(engine="rapidcheck", technique="property-based testing (rapidcheck): per-value error bound |x'-x| <= step/2 + 8 half-ulps through a tag attribute, all coding methods",
    text="Every case carries >= 1 quantized float32 attribute (1..8 components, magnitudes 1e-6..1e9 with offsets, constant components, auto or explicit box, q up to 26) and a uint32 tag attribute that gives the input<->decoded correspondence under reordering methods. Oracle per decoded component: error <= half a step of the reference range plus the stated float32 allowance, value inside the box up to the allowance, and the declared parameters (read through the skip-transform decode) equal to the reference min/range/bits.",
    note="The allowance 8*2^-24*max(|x|,|min|,R) is derived in DESIGN.md; q 27..30 are reached only at transform level (see C04 evidence classes) because the entropy coder's cost grows with 2^q.",
@@ -65,7 +109,7 @@ def main():
     m = dict(version=1,
         setup_cmd="python3 verif.py setup",
         hooks=dict(guard="DRACO_VERIF", enable="verif.py compiles /repo/src with -DDRACO_VERIF (configs san/tsan/plain, see lib/vbuild.py)",
-                   baseline_off_cmd="cmake --build /repo/_build && cd /repo/_build && ./draco_tests && ./draco_factory_tests",
+                   baseline_off_cmd="cmake --build /repo/_build -j16 && cd /repo/_build && (./draco_tests; ./draco_factory_tests)   # guard off: plain cmake build without -DDRACO_VERIF; 187 baseline tests pass, the 2 always-failing Obj*All tests fail as in BASELINE.json",
                    source_commits=HOOK_COMMITS, add_only=True),
         engines=[dict(name="rapidcheck", path="/usr/include/rapidcheck.h", kind_free_text="property-based testing library (C++), sharded x16 by verif.py"),
                  dict(name="libFuzzer", path="clang++ -fsanitize=fuzzer", kind_free_text="coverage-guided fuzzing with ASan+UBSan"),
@@ -73,6 +117,6 @@ def main():
         checks=checks, not_applicable=na,
         notes="Driver: /verif/verif.py (lib/vbuild.py builds /repo's working tree by content hash; lib/checks.py holds the checks). Known findings: /verif/known_findings.json. Seeded changes: /verif/seeded/.")
     json.dump(m, open(os.path.join(V, "MANIFEST.json"), "w"), indent=1)
-HOOK_COMMITS = []
+HOOK_COMMITS = ['3035dc2', '324d75e']
 if __name__ == "__main__":
     main()
